@@ -35,6 +35,18 @@ def dsOf (j : Json) : DS :=
     vars := (getArr j "vars").map fun v =>
       { name := getStr v "name", dims := strList v "dims", cells := (intList v "cells").map cellOfInt } }
 
+/-- a colour limit: `null` (not given) or `{"zero": bool}` -/
+def limOf (j : Json) (k : String) : Option PlotPrep.LimArg :=
+  match j.getObjVal? k with
+  | .ok (.obj o) => some { isZero := getBool (.obj o) "zero" }
+  | _ => none
+
+def limSrcJson : PlotPrep.LimSrc → Json
+  | .given => "given"
+  | .zlim => "zlim"
+  | .data => "data"
+  | .unset => "unset"
+
 open PlotPrep in
 def callOf (kind : Kind) (j : Json) : Call :=
   { kind := kind, x := strList j "x", y := strList j "y", multi := getBool j "multi",
@@ -44,7 +56,10 @@ def callOf (kind : Kind) (j : Json) : Call :=
       | "auto" => .auto
       | "list" => .list
       | _ => .default
-    legend := optBool j "legend", colorbar := optBool j "colorbar" }
+    legend := optBool j "legend", colorbar := optBool j "colorbar",
+    vmin := limOf j "vmin", vmax := limOf j "vmax",
+    zlimLo := ((getArr j "zlims")[0]?.bind fun b => (fromJson? b : Except String Bool).toOption).getD false,
+    zlimHi := ((getArr j "zlims")[1]?.bind fun b => (fromJson? b : Except String Bool).toOption).getD false }
 
 def cellsJson (l : List PlotPrep.Cell) : Json := toJson (l.map intOfCell)
 
@@ -76,7 +91,8 @@ def opClassic (kind : Kind) (j : Json) : Json :=
   let fig := plot ds call
   Json.mkObj [("panels", Json.arr ((fig.panels.flatten).map panelJson).toArray),
               ("legend", toJson fig.useLegend), ("colorbar", toJson fig.useColorbar),
-              ("coloured", toJson (call.colors == .auto || call.c.isSome))]
+              ("coloured", toJson (call.colors == .auto || call.c.isSome)),
+              ("limits", Json.arr #[limSrcJson fig.limits.1, limSrcJson fig.limits.2])]
 
 /-! ### infiniplot -/
 
